@@ -867,3 +867,9 @@ for _v in list(V):
 for _v in list(V):
     if _v.get("transform") and _v["transform"][0] == "rename_locals":
         invert(_v["prop"], _v["transform"][1], _v["transform"][2])
+
+# every local of every top-level function / method of the whole package renamed at once
+for _p in ("C01", "C02", "C03", "C04", "C05", "C06", "C07", "C08", "C11", "C15", "C16", "C17", "C18", "C20"):
+    V.append(dict(id=f"{_p.lower()}-s-rename-all-locals", prop=_p, kind="silent", transform=("rename_all_locals", "", "")))
+    for _t in ("invert_all_ifs", "all_returns_via_temp", "all_else_after_return"):
+        V.append(dict(id=f"{_p.lower()}-s-{_t.replace('_', '-')}", prop=_p, kind="silent", transform=(_t, "", "")))
